@@ -127,7 +127,7 @@ fn judge(payload: &[u8], reply: Option<&[u8]>, carrier: &str, later: bool, idx: 
                 bad("byte-count", "smb1-byte-count".into(), format!("ByteCount {} but {} bytes follow", bc, bytes.len()));
             }
             if let SmbClass::Smb1Negotiate { dialects } = &class {
-                if wc != 17 {
+                if wc < 1 {
                     bad("body", "smb1-negotiate-wordcount".into(), format!("negotiate response with WordCount {}", wc));
                     return;
                 }
@@ -135,16 +135,9 @@ fn judge(payload: &[u8], reply: Option<&[u8]>, carrier: &str, later: bool, idx: 
                 if di >= dialects.len() {
                     bad("dialect", "smb1-dialect-index".into(), format!("DialectIndex {} but {} dialects were offered", di, dialects.len()));
                 }
-                // extended security: ByteCount covers the 16-byte GUID and the security blob
-                if bytes.len() < 16 {
-                    bad("blob", "smb1-negotiate-blob".into(), "negotiate response data shorter than the server GUID".into());
-                }
             } else {
-                if wc != 4 {
-                    bad("body", "smb1-session-wordcount".into(), format!("session-setup response with WordCount {}", wc));
-                    return;
-                }
-                let blob = u16::from_le_bytes([words[6], words[7]]) as usize;
+                // the extended-security response (4 words) carries a SecurityBlobLength
+                let blob = if wc == 4 { u16::from_le_bytes([words[6], words[7]]) as usize } else { 0 };
                 if blob > bytes.len() {
                     bad("blob", "smb1-session-blob".into(), format!("SecurityBlobLength {} exceeds the {} data bytes present", blob, bytes.len()));
                 }
